@@ -1394,3 +1394,94 @@ pub fn c09_wide(seed: u64) -> Scenario {
     sc.params.insert("v_isn_b".into(), r.range(0, 65535) as i64);
     sc
 }
+
+// ------------------------------------------------------------------------------------------
+// C12: many simultaneous connections on few sockets, in both directions, with colliding
+// connection-id counters and small connection limits.
+
+pub fn c12_many(seed: u64) -> Scenario {
+    let mut r = Rng::new(seed ^ 0xC12);
+    let ipv6 = r.chance(0.2);
+    let n_nodes = r.range(2, 4) as usize;
+    let fault_free = r.chance(0.5);
+    let mut nodes = vec![];
+    // the same starting connection id on every socket makes ids of opposite directions meet
+    let same_cid = r.chance(0.5);
+    let cid0 = *r.pick(&[0u16, 1, 100, 65534, 65535, 32767]);
+    for _ in 0..n_nodes {
+        let opts = OptsCfg {
+            max_live: if r.chance(0.5) { Some(*r.pick(&[1usize, 2, 3, 4, 6, 10])) } else { None },
+            inactivity_ms: Some(r.range(8_000, 20_000)),
+            link_mtu: if r.chance(0.3) { Some(r.range(300, 1500) as usize) } else { None },
+            disable_nagle: r.chance(0.2),
+            ..Default::default()
+        };
+        let mut env = EnvCfg { seed: r.next(), forced: vec![] };
+        if same_cid {
+            env.forced = vec![cid0];
+        } else if r.chance(0.3) {
+            env.forced = vec![cid0.wrapping_add(r.range(0, 3) as u16)];
+        }
+        nodes.push(NodeCfg { ipv6, opts, env });
+    }
+    let k = r.log_range(2, 28) as usize;
+    let b_acc: u64 = if r.chance(0.2) { 0 } else { r.log_range(1, 20_000) };
+    let clusters: Vec<u64> = (0..r.range(1, 4)).map(|_| r.log_range(1, 4000)).collect();
+    let mut connects = vec![];
+    let mut per_node = vec![0usize; n_nodes];
+    for _ in 0..k {
+        let node = r.below(n_nodes as u64) as usize;
+        let mut to = r.below(n_nodes as u64 - 1) as usize;
+        if to >= node {
+            to += 1;
+        }
+        per_node[to] += 1;
+        let at_ms = if r.chance(0.7) { *r.pick(&clusters) + r.below(3) } else { r.range(0, 5000) };
+        let n = 8 + if r.chance(0.2) { 0 } else { r.log_range(1, 40_000) };
+        let w = vec![WOp::Write { n, chunk: r.log_range(8, 16_384) as usize }, WOp::Flush, WOp::WaitRead(b_acc), WOp::Shutdown];
+        let rd = vec![ROp::Read { n: u64::MAX, buf: r.log_range(64, 16_384) as usize, vectored: r.chance(0.2) }];
+        connects.push(ConnectScript { node, to, at_ms, cancel_after_ms: None, side: Side { w, r: rd } });
+    }
+    let mut accepts = vec![];
+    for (node, cnt) in per_node.iter().enumerate() {
+        let n_acc = match r.below(6) {
+            0 => cnt.saturating_sub(1),
+            1 => cnt + 1,
+            _ => *cnt,
+        };
+        for _ in 0..n_acc {
+            let at_ms = if r.chance(0.8) { r.range(0, 50) } else { r.range(0, 6000) };
+            let mut w = vec![];
+            if b_acc > 0 {
+                w.push(WOp::Write { n: b_acc, chunk: r.log_range(8, 16_384) as usize });
+            }
+            w.push(WOp::WaitRead(u64::MAX));
+            w.push(WOp::Shutdown);
+            let rd = vec![ROp::Read { n: u64::MAX, buf: r.log_range(64, 16_384) as usize, vectored: r.chance(0.2) }];
+            accepts.push(AcceptScript { node, at_ms, cancel_after_ms: None, side: Side { w, r: rd } });
+        }
+    }
+    let mut net = NetCfg { seed: r.next(), latency_us: pick_latency_us(&mut r).min(80_000), ..Default::default() };
+    if !fault_free {
+        net.jitter_us = r.range(0, 20_000);
+        net.drop_p = *r.pick(&[0.0, 0.005, 0.02, 0.05]);
+        net.dup_p = *r.pick(&[0.0, 0.02, 0.1]);
+        net.protect_syn = r.chance(0.7);
+    }
+    let mut params = std::collections::BTreeMap::new();
+    params.insert("fault_free".to_string(), fault_free as i64);
+    params.insert("acceptor_bytes".to_string(), b_acc as i64);
+    Scenario {
+        family: "c12_many".to_string(),
+        seed,
+        net,
+        nodes,
+        connects,
+        accepts,
+        global: vec![],
+        peer: None,
+        script_cap_ms: 90_000,
+        settle_ms: 3_000,
+        params,
+    }
+}
